@@ -10,6 +10,7 @@ capture), that free names, property names and protected globals are unchanged,
 that no generated name is a reserved word, and that only identifiers changed.
 """
 
+import re
 from vk.boot import HarnessBroken
 from vk import work, probe
 from vk.gen import jsgen
@@ -22,12 +23,12 @@ RULE = ('programs: scope-shape generator (nested function declarations / named a
         'locals so that two- and three-letter names incl. do/if/in/for/new/var/try occur, with catch clauses, nested '
         'functions and a named function expression inside the crowded scope, which is a function or the global one), Annex A derivations and the '
         'corpus, all without with/eval; configurations {obfuscate_globals} x {shadow_funcname} x {minify, '
-        'minify+drop_semi, Unparser(obfuscate, indent)}; every second case on a printer object that has already printed another tree; every fourth with a second output of the same printer object alive and consumed in turns; a case = (program, configuration); non-trivial = at least one '
+        'minify+drop_semi, Unparser(obfuscate, indent)}; every second case on a printer object that has already printed another tree; every fifth scope program with some occurrences of declared names spelled with a unicode escape; every fourth with a second output of the same printer object alive and consumed in turns; a case = (program, configuration); non-trivial = at least one '
         'binding was renamed; distinct by that pair.')
 ASSUMPTIONS = ['refscope implements ES5 scoping (10.2, 10.5, 12.14, 13); programs using with / direct eval are out of scope',
                'the rule composition passes reserved_keywords exactly as minify_printer does']
 BUDGET_S = {'quick': 100, 'thorough': 900}
-REQUIRED_HITS = ['obfuscated_print', 'occurrences_checked', 'Obfuscator.finalize', 'NameGenerator.next', 'reused_printer', 'interleaved_outputs']
+REQUIRED_HITS = ['obfuscated_print', 'occurrences_checked', 'Obfuscator.finalize', 'NameGenerator.next', 'reused_printer', 'interleaved_outputs', 'escaped_spelling']
 FLOOR = {'quick': 1500, 'thorough': 20000}
 
 RESERVED = refjs.RESERVED
@@ -82,7 +83,8 @@ def judge(plain_res, plain_scope, obf_res, obf_scope, obfuscate_globals):
         if po.role == 'label':
             if po.binding is None:
                 continue       # break/continue without an enclosing label of that name: nothing to preserve
-            if new_name_of.setdefault(po.binding, b.value) != b.value:
+            # (the same label may be spelled with and without escapes: compare the names, not the spellings)
+            if new_name_of.setdefault(po.binding, refscope._name(b.value)) != refscope._name(b.value):
                 return ('C07:label_renamed_inconsistently', 'the label %r and a jump to it became %r and %r' % (
                     a.value, new_name_of[po.binding], b.value)), renamed
             if oo.role != 'label' or oo.binding is None:
@@ -105,8 +107,10 @@ def judge(plain_res, plain_scope, obf_res, obf_scope, obfuscate_globals):
                 a.value, b.value)), renamed
         if a.value != b.value:
             renamed += 1
-        prev = new_name_of.setdefault(po.binding, b.value)
-        if prev != b.value:
+        # (one variable may be spelled with and without escapes, in the source and - where it is not renamed - in the
+        # output: the names are compared, not the spellings)
+        prev = new_name_of.setdefault(po.binding, refscope._name(b.value))
+        if prev != refscope._name(b.value):
             return ('C07:binding_renamed_inconsistently', 'occurrences of the variable %r became %r and %r' % (
                 a.value, prev, b.value)), renamed
         # same partition after renaming
@@ -286,6 +290,27 @@ def scope_program(rng, big=0):
     return top
 
 
+_DECL = re.compile(r'\b(?:var|function)\s+([A-Za-z_$][A-Za-z0-9_$]*)|[(,]\s*([A-Za-z_$][A-Za-z0-9_$]*)\s*(?=[,)]\s*[,){])')
+
+
+def escape_some(text, rng):
+    """the same program with some occurrences of one or two of its declared names spelled with a unicode escape (7.6: the same
+    name; a renaming has to treat both spellings as one variable)"""
+    names = sorted(set(a or b for a, b in _DECL.findall(text)) - jsgen.RESERVED - {'get', 'set', ''})
+    if not names:
+        return text
+    for name in rng.sample(names, min(2, len(names))):
+        k = rng.randrange(len(name))
+        esc = name[:k] + '\\u%04x' % ord(name[k]) + name[k + 1:]
+        n = [0]
+
+        def sub(m):
+            n[0] += 1
+            return esc if (n[0] + k) % 2 else m.group(0)
+        text = re.sub(r'(?<![\w$\\.])%s(?![\w$\\])' % re.escape(name), sub, text)
+    return text
+
+
 class Hooks(object):
     def __init__(self, ctx):
         self.ctx = ctx
@@ -425,6 +450,9 @@ def run(ctx):
         n = ctx.per_shard(220, 5000)
         for i in range(n):
             text = scope_program(rng, big=(rng.choice([60, 300, 800, 3000]) if i % 97 == 5 else 0))
+            if i % 5 == 3:
+                text = escape_some(text, rng)
+                ctx.hit('escaped_spelling')
             sel = cfgs if (ctx.tier == 'thorough' or i % 6 == 0) else [cfgs[i % len(cfgs)], cfgs[(i * 5 + 3) % len(cfgs)]]
             check(ctx, text, sel, 'scope_shape', reuse=(0, 1, 2, 1)[i & 3])
             if not (i & 0xf) and ctx.time_left() < ctx.budget_s * 0.3:
